@@ -53,6 +53,7 @@ type (
 type qvar struct {
 	name string
 	typ  string
+	ex   bool // existentially quantified (leading "exists k int ::"), int only
 }
 
 type Clause struct {
@@ -103,6 +104,7 @@ type Contract struct {
 	file     string
 	line     int
 	modular  bool
+	pure     bool
 	trusted  string
 	lemma    bool // stand-alone lemma: no function body
 	params   []qvar
@@ -122,6 +124,8 @@ type SpecFunc struct {
 	params []qvar
 	body   Expr
 	text   string
+	rec    bool   // recursive definition over its last (int) parameter
+	result string // result type of a recursive definition: int, real or bool
 }
 
 //-----------------------------------------------------------------------------
@@ -230,15 +234,18 @@ func parseExpr(s string) (e Expr, vars []qvar, err error) {
 		}
 	}()
 	// leading quantifiers: forall x T, y U ::
-	for p.peek().kind == "ident" && p.peek().s == "forall" {
-		p.next()
+	for p.peek().kind == "ident" && (p.peek().s == "forall" || p.peek().s == "exists") {
+		ex := p.next().s == "exists"
 		for {
 			nm := p.next()
 			if nm.kind != "ident" {
-				panic(fmt.Errorf("expected variable name after forall"))
+				panic(fmt.Errorf("expected variable name after quantifier"))
 			}
 			ty := p.parseTypeName()
-			vars = append(vars, qvar{nm.s, ty})
+			if ex && ty != "int" {
+				panic(fmt.Errorf("exists ranges over int only"))
+			}
+			vars = append(vars, qvar{nm.s, ty, ex})
 			if p.isOp(",") {
 				p.next()
 				continue
@@ -676,6 +683,10 @@ func (cs *ContractSet) parseFile(pkg, path, src string) error {
 			cur.nilParams = append(cur.nilParams, strings.Fields(rest)...)
 		case "modular":
 			cur.modular = true
+		case "pure":
+			// reads only (checked by the frame analysis): calls with the same object and heap give the same result
+			cur.pure = true
+			cur.modular = true
 		case "trusted":
 			cur.trusted = rest
 			cur.modular = true
@@ -706,17 +717,17 @@ func parseParams(s string) ([]qvar, error) {
 		f := strings.Fields(part)
 		if len(f) == 1 && len(out) > 0 {
 			// "a, b T" style handled below
-			out = append(out, qvar{f[0], ""})
+			out = append(out, qvar{name: f[0]})
 			continue
 		}
 		if len(f) != 2 {
 			if len(f) == 1 {
-				out = append(out, qvar{f[0], ""})
+				out = append(out, qvar{name: f[0]})
 				continue
 			}
 			return nil, fmt.Errorf("bad parameter %q", part)
 		}
-		out = append(out, qvar{f[0], f[1]})
+		out = append(out, qvar{name: f[0], typ: f[1]})
 	}
 	// propagate types backwards: a, b T
 	for i := len(out) - 1; i >= 0; i-- {
@@ -732,7 +743,12 @@ func parseParams(s string) ([]qvar, error) {
 }
 
 func parseSpecFunc(s string) (*SpecFunc, error) {
-	// name(params) = expr
+	// [rec] name(params) [type] = expr
+	rec := false
+	if strings.HasPrefix(s, "rec ") {
+		rec = true
+		s = strings.TrimSpace(s[4:])
+	}
 	i := strings.Index(s, "(")
 	j := strings.Index(s, ")")
 	k := strings.Index(s, "=")
@@ -749,8 +765,102 @@ func parseSpecFunc(s string) (*SpecFunc, error) {
 	if err != nil {
 		return nil, err
 	}
-	return &SpecFunc{name: strings.TrimSpace(s[:i]), params: ps, body: e, text: s}, nil
+	sf := &SpecFunc{name: strings.TrimSpace(s[:i]), params: ps, body: e, text: s, rec: rec}
+	if rec {
+		sf.result = strings.TrimSpace(s[j+1 : k])
+		if sf.result != "int" && sf.result != "real" && sf.result != "bool" {
+			return nil, fmt.Errorf("recursive spec function %s needs a result type int, real or bool", sf.name)
+		}
+		if err := checkWellFounded(sf); err != nil {
+			return nil, err
+		}
+	}
+	return sf, nil
 }
+
+// checkWellFounded accepts only definitions of the shape
+//   f(..., n) = ite(n <= c, base, step)   with every recursive call in step being f(..., n - 1)
+// and no recursive call in base, so that the defining equations have a (unique) model.
+func checkWellFounded(sf *SpecFunc) error {
+	bad := fmt.Errorf("recursive spec function %s must have the shape ite(n <= c, base, step) with recursive calls f(..., n - 1) only in step", sf.name)
+	if len(sf.params) == 0 || sf.params[len(sf.params)-1].typ != "int" {
+		return bad
+	}
+	n := sf.params[len(sf.params)-1].name
+	c, ok := sf.body.(*ECall)
+	if !ok || len(c.args) != 3 {
+		return bad
+	}
+	if id, ok := c.fun.(*EIdent); !ok || id.name != "ite" {
+		return bad
+	}
+	cond, ok := c.args[0].(*EBin)
+	if !ok || cond.op != "<=" {
+		return bad
+	}
+	if id, ok := cond.l.(*EIdent); !ok || id.name != n {
+		return bad
+	}
+	if _, ok := cond.r.(*ENum); !ok {
+		return bad
+	}
+	self := map[string]bool{sf.name: true}
+	if mentionsIdent(c.args[1], self) || mentionsIdent(c.args[0], self) {
+		return bad
+	}
+	okCalls := true
+	var walk func(e Expr)
+	walk = func(e Expr) {
+		switch t := e.(type) {
+		case *ECall:
+			if id, ok := t.fun.(*EIdent); ok && id.name == sf.name {
+				if len(t.args) != len(sf.params) {
+					okCalls = false
+					return
+				}
+				last, ok := t.args[len(t.args)-1].(*EBin)
+				if !ok || last.op != "-" {
+					okCalls = false
+					return
+				}
+				li, ok1 := last.l.(*EIdent)
+				ln, ok2 := last.r.(*ENum)
+				if !ok1 || !ok2 || li.name != n || !ln.isInt || ln.rat.Cmp(big.NewRat(1, 1)) != 0 {
+					okCalls = false
+					return
+				}
+				for _, a := range t.args[:len(t.args)-1] {
+					walk(a)
+				}
+				return
+			}
+			walk(t.fun)
+			for _, a := range t.args {
+				walk(a)
+			}
+		case *ESel:
+			walk(t.x)
+		case *EIndex:
+			walk(t.x)
+			walk(t.i)
+		case *EUn:
+			walk(t.x)
+		case *EBin:
+			walk(t.l)
+			walk(t.r)
+		case *EComp:
+			for _, a := range t.elems {
+				walk(a)
+			}
+		}
+	}
+	walk(c.args[2])
+	if !okCalls {
+		return bad
+	}
+	return nil
+}
+
 
 //-----------------------------------------------------------------------------
 // evaluation
@@ -898,6 +1008,11 @@ func (x *Exec) eval(st *State, env *Env, e Expr) Value {
 				if id.name == "math" {
 					if n.name == "Pi" {
 						return piTerm()
+					}
+					if mp := x.prog.ImportedPackage("math"); mp != nil {
+						if nc, ok := mp.Members[n.name].(*ssa.NamedConst); ok {
+							return x.constValue(nc.Value)
+						}
 					}
 					return &Func{builtin: "math." + n.name}
 				}
@@ -1055,6 +1170,11 @@ func (x *Exec) selectField(st *State, v Value, name string) Value {
 	switch t := v.(type) {
 	case *Ptr:
 		if t.cell == nil {
+			if t.elem != nil && x.specMode > 0 {
+				// reading through nil in a specification: an unspecified object (the clause has to guard it)
+				x.symArrCtr++
+				return x.selectField(st, x.symValue(st, t.elem, fmt.Sprintf("unspec%d", x.symArrCtr)), name)
+			}
 			fail("field %s of nil pointer", name)
 		}
 		return x.selectField(st, x.load(st, t), name)
@@ -1111,6 +1231,16 @@ func (x *Exec) indexValue(st *State, v Value, i *Term) Value {
 		if t.cell == nil {
 			// reading a nil slice in a specification: unspecified value (the clause has to guard it)
 			x.symArrCtr++
+			if t.elem != nil && ufSupported(t.elem) {
+				return x.symValue(st, t.elem, fmt.Sprintf("unspec%d", x.symArrCtr))
+			}
+			if t.elem != nil {
+				if pt, ok := t.elem.Underlying().(*types.Pointer); ok && !foreignType(pt.Elem()) && regionable(pt.Elem()) {
+					id := freshVar(fmt.Sprintf("unspec%d$id", x.symArrCtr), SInt)
+					st.axiom(mkLe(mkInt(0), id))
+					return &Ptr{cell: x.regionCell(pt.Elem()), sym: id, mayNil: true}
+				}
+			}
 			return &Opaque{tag: "unspecified", id: freshVar(fmt.Sprintf("unspec%d", x.symArrCtr), SInt)}
 		}
 		if _, ok := st.store[t.cell].(*SymArr); ok {
@@ -1130,6 +1260,10 @@ func (x *Exec) indexValue(st *State, v Value, i *Term) Value {
 		}
 		return x.selectSym(arr.el, off, l, i)
 	case *Ptr:
+		if t.cell == nil && t.elem != nil && x.specMode > 0 {
+			x.symArrCtr++
+			return x.indexValue(st, x.symValue(st, t.elem, fmt.Sprintf("unspec%d", x.symArrCtr)), i)
+		}
 		return x.indexValue(st, x.load(st, t), i)
 	}
 	if o, ok := v.(*Opaque); ok && o.id != nil {
@@ -1219,6 +1353,9 @@ func (x *Exec) evalCall(st *State, env *Env, n *ECall) Value {
 				if len(sf.params) != len(n.args) {
 					fail("spec function %s: wrong number of arguments", id.name)
 				}
+				if sf.rec {
+					return x.evalRecSpec(st, env, sf, n.args)
+				}
 				ne := &Env{vars: map[string]Value{}, pkg: env.pkg, old: env.old, oldEnv: env.oldEnv}
 				for i, p := range sf.params {
 					v := x.eval(st, env, n.args[i])
@@ -1276,6 +1413,105 @@ func (x *Exec) evalCall(st *State, env *Env, n *ECall) Value {
 		x.coerceArgs(args, f.fn.Signature)
 	}
 	return x.specGoCall(st, func() []Out { return x.callClosure(st, f, args, 1) })
+}
+
+// evalRecSpec: an application of a recursively defined spec function is an
+// uninterpreted value constrained by one unfolding of its defining equation
+// (the recursive calls inside the unfolding are left folded).
+func (x *Exec) evalRecSpec(st *State, env *Env, sf *SpecFunc, argEs []Expr) Value {
+	ne := &Env{vars: map[string]Value{}, pkg: env.pkg, old: env.old, oldEnv: env.oldEnv}
+	var flat []*Term
+	usedHeap := false
+	for i, p := range sf.params {
+		v := x.eval(st, env, argEs[i])
+		if p.typ == "real" {
+			v = x.coerceTo(v, types.Typ[types.Float64])
+		}
+		ne.vars[p.name] = v
+		if !x.flattenIdentity(v, &flat, &usedHeap) {
+			fail("spec function %s: argument %s cannot be an argument of a recursive definition", sf.name, p.name)
+		}
+	}
+	if usedHeap {
+		flat = append(flat, mkInt(int64(x.heapEpoch(st))))
+	}
+	srt := SInt
+	switch sf.result {
+	case "real":
+		srt = SReal
+	case "bool":
+		srt = SBool
+	}
+	r := x.ufApp(st, "spec_"+sf.name, srt, flat)
+	if x.recDepth == 0 && !st.unfolded[r.id] {
+		m := make(map[int]bool, len(st.unfolded)+1)
+		for k := range st.unfolded {
+			m[k] = true
+		}
+		m[r.id] = true
+		st.unfolded = m
+		x.recDepth++
+		body := x.eval(st, ne, sf.body)
+		x.recDepth--
+		bt, ok := body.(*Term)
+		if !ok {
+			fail("spec function %s: body is not a scalar", sf.name)
+		}
+		st.axiom(mkEq(r, coerce(bt, srt)))
+	}
+	return r
+}
+
+// flattenIdentity: scalars by value, pointers and slices by identity (the
+// result then also depends on the heap epoch).
+func (x *Exec) flattenIdentity(v Value, out *[]*Term, usedHeap *bool) bool {
+	switch t := v.(type) {
+	case *Ptr:
+		*usedHeap = true
+		if t.cell == nil {
+			*out = append(*out, mkInt(0), mkInt(0))
+			return true
+		}
+		*out = append(*out, mkInt(int64(t.cell.id)))
+		for _, k := range t.path {
+			*out = append(*out, mkInt(int64(k)))
+		}
+		if t.sym != nil {
+			*out = append(*out, t.sym)
+		} else {
+			*out = append(*out, mkInt(-1))
+		}
+		return true
+	case *SliceV:
+		*usedHeap = true
+		if t.cell == nil {
+			*out = append(*out, mkInt(0), mkInt(0), mkInt(0))
+			return true
+		}
+		*out = append(*out, mkInt(int64(t.cell.id)), t.off, t.len)
+		return true
+	case *Tuple:
+		for _, e := range t.el {
+			if !x.flattenIdentity(e, out, usedHeap) {
+				return false
+			}
+		}
+		return true
+	}
+	return flatten(v, out)
+}
+
+// eventMatches: an event of the ghost log is named by its full kind, by a
+// suffix of it, or - for summarised calls of methods, logged as
+// "call:Type.method" - by "call:method" (any receiver type).
+func eventMatches(kind, nm string) bool {
+	if kind == "ext:"+nm || kind == nm || strings.HasSuffix(kind, nm) {
+		return true
+	}
+	if strings.HasPrefix(kind, "call:") && strings.HasPrefix(nm, "call:") && !strings.Contains(nm[5:], ".") {
+		return strings.HasSuffix(kind, "."+nm[5:])
+	}
+	return false
 }
 
 // funcField: a function-valued struct field reachable from v (e.g. s.extrude).
@@ -1523,9 +1759,7 @@ func (x *Exec) specBuiltin(st *State, env *Env, name string, args []Expr) (Value
 			}
 			return s.s
 		}
-		match := func(ev Event, nm string) bool {
-			return ev.kind == "ext:"+nm || ev.kind == nm || strings.HasSuffix(ev.kind, nm)
-		}
+		match := func(ev Event, nm string) bool { return eventMatches(ev.kind, nm) }
 		evs := st.log[st.logMark:]
 		switch name {
 		case "nev":
@@ -1664,7 +1898,7 @@ func (x *Exec) specBuiltin(st *State, env *Env, name string, args []Expr) (Value
 		want := x.eval(st, env, args[2])
 		sum := mkInt(0)
 		for _, ev := range st.log[st.logMark:] {
-			if ev.kind == "ext:"+s0.s || ev.kind == s0.s || strings.HasSuffix(ev.kind, s0.s) {
+			if eventMatches(ev.kind, s0.s) {
 				if ai < len(ev.args) {
 					sum = mkAdd(sum, mkIte(x.valuesEqual(ev.args[ai], want), mkInt(1), mkInt(0)))
 				}
@@ -1690,6 +1924,9 @@ func (x *Exec) specBuiltin(st *State, env *Env, name string, args []Expr) (Value
 func (x *Exec) isNil(v Value) *Term {
 	switch t := v.(type) {
 	case *Ptr:
+		if t.cell != nil && t.mayNil && t.sym != nil {
+			return mkEq(t.sym, mkInt(0))
+		}
 		return mkBool(t.cell == nil)
 	case *Iface:
 		return mkBool(t.dyn == nil)
